@@ -19,7 +19,7 @@ RULE = (
     "a reference that threads (coordinates, data, weights) by hand through FRESH instances of the steps using only their own "
     "fit / predict / filter. Histories: fit(D_a); fit(D_b) and filter-after-fit on the same chain versus a fresh one. Vector "
     "components versus separately fitted estimators on (data[i], weights[i]). Non-trivial: >= 2 steps or a Vector."
-    " Added axes: nested chains (plain and reducing), the default Spline, step names all equal / in reverse order, parameter routes for every step, repeated stations, data scaled by 1e-9, constant non-unit weights."
+    " Added axes: nested chains (plain and reducing), the default Spline, step names all equal / in reverse order, parameter routes for every step, repeated stations, data scaled by 1e-9, integer-dtype data (int64 / int32), constant non-unit weights."
 )
 ASSUMPTIONS = ["the individual steps' fit / predict / filter are trusted here (they are the subject of C02, C09, C10, C15)",
                "agreement required to 1e-9 x data scale (both sides run the same verde kernels on the same numbers)"]
@@ -77,6 +77,8 @@ def _cases(tier, seed):
                     for w in (False, True):
                         yield dict(kind="chain", alpha=alpha, steps=list(steps), ds=2, w=w, shape="1d")
                         yield dict(kind="chain", alpha=alpha, steps=list(steps), ds=0, w=w, shape="1d", dscale=1e-9)
+                        # integer-valued data in integer-dtype arrays (round 8, seeds C06-15 / C01-16: residuals cast back to the data's dtype)
+                        yield dict(kind="chain", alpha=alpha, steps=list(steps), ds=0, w=w, shape="1d", ddtype="int")
                 # step names: all equal (legal: the steps are a list), and in reverse alphabetical order (seed C06-7: iteration over a
                 # dict of the names)
                 if L >= 2:
@@ -98,10 +100,12 @@ def _cases(tier, seed):
                 yield dict(kind="filter", alpha="scalar", step=key, w=w, shape=shape)
                 yield dict(kind="filter", alpha="scalar", step=key, w=w, shape=shape, ds=2)
                 yield dict(kind="filter", alpha="scalar", step=key, w=w, shape=shape, dscale=1e-9)
+                yield dict(kind="filter", alpha="scalar", step=key, w=w, shape=shape, ddtype="int")
     for key in ("VTK", "VTS"):
         for w in (False, True):
             for shape in ("1d", "2d"):
                 yield dict(kind="filter", alpha="vector", step=key, w=w, shape=shape)
+                yield dict(kind="filter", alpha="vector", step=key, w=w, shape=shape, ddtype="int")
                 yield dict(kind="vector_parts", step=key, w=w, shape=shape)
         yield dict(kind="filter", alpha="vector", step=key, w=True, shape="1d", wconst=True)
         yield dict(kind="vector_parts", step=key, w=True, shape="1d", wconst=True)
@@ -203,6 +207,8 @@ def run(case, rec):
         def args_for(ds_i, shape="1d"):
             e, n, d, w = _dataset(ds_i)
             d = tuple(x * dscale for x in d)
+            if case.get("ddtype") == "int":
+                d = (np.round(d[0]).astype(np.int64), np.round(d[1]).astype(np.int32))
             if shape == "2d" and e.size % 2 == 0:
                 rs = lambda a: a.reshape(2, -1)
             else:
@@ -316,6 +322,8 @@ def run(case, rec):
         alpha = "scalar" if case.get("alpha", "vector") == "scalar" else "vector"
         e, n, d, w = _dataset(case.get("ds", 0))
         d = tuple(x * case.get("dscale", 1.0) for x in d)
+        if case.get("ddtype") == "int":
+            d = (np.round(d[0]).astype(np.int64), np.round(d[1]).astype(np.int32))
         rs = (lambda a: a.reshape(2, -1)) if case["shape"] == "2d" else (lambda a: a)
         coords = (rs(e), rs(n))
         data = rs(d[0]) if alpha == "scalar" else (rs(d[0]), rs(d[1]))
